@@ -16,6 +16,8 @@ import (
 	"log/slog"
 	"math/bits"
 	"os"
+	"runtime/debug"
+	"strconv"
 
 	"github.com/ollama/ollama/fs/ggml"
 	"verifharness/cmd/c05/ggdump"
@@ -171,6 +173,10 @@ func entryAll(alpha []byte, maxlen int, decodeToo bool) map[string]any {
 }
 
 func main() {
+	// a lowered stack limit turns runaway recursion on hostile nesting into a visible process death long before the default 1 GB
+	if v, err := strconv.Atoi(os.Getenv("VERIF_MAXSTACK")); err == nil && v > 0 {
+		debug.SetMaxStack(v)
+	}
 	slog.SetDefault(slog.New(slog.NewTextHandler(io.Discard, nil)))
 	sc := bufio.NewScanner(os.Stdin)
 	sc.Buffer(make([]byte, 1<<20), 1<<30)
